@@ -41,12 +41,24 @@ class FinalReady:
             if outer.expected is not None and r.encode("utf-8", "surrogatepass") == outer.expected:
                 outer.ready = True
             return r
+        def iterencode(enc_self, o, _one_shot=False):
+            chunks = []
+            for ch in outer.real_iter(enc_self, o, _one_shot):
+                chunks.append(ch)
+                yield ch
+            # only once the last chunk has been produced is the result complete (a writer that streams chunks into the file touches it earlier)
+            outer.calls += 1
+            if outer.expected is not None and "".join(chunks).encode("utf-8", "surrogatepass") == outer.expected:
+                outer.ready = True
+        self.real_iter = self.json.JSONEncoder.iterencode
         self.json.JSONEncoder.encode = encode
+        self.json.JSONEncoder.iterencode = iterencode
         faults.PROBE = lambda: self.ready
         return self
 
     def __exit__(self, *a):
         self.json.JSONEncoder.encode = self.real
+        self.json.JSONEncoder.iterencode = self.real_iter
         faults.PROBE = None
         return False
 
@@ -54,11 +66,11 @@ class FinalReady:
         self.expected, self.ready, self.calls = expected, False, 0
 
 
-def judge(log, after, orig, raised):
+def judge(log, after, orig, raised, blind=False):
     """per run: None = fine; otherwise the clause that failed.  The output phase of *this* run begins at its first event that can modify the
     target; it is legitimate only if the final document had been serialized by then.  A fault after a legitimate start is outside the property."""
     t = faults.touches(log)
-    if t and not t[0][3]:
+    if t and not t[0][3] and not blind:
         return "early"
     if raised and after != orig and not t:
         return "modified-unobserved"
@@ -108,7 +120,10 @@ def _run(ck: Check, probe) -> None:
         if exc is not None or open(fn, "rb").read() != signed or not t or not faults.reads(log):
             ck.violation("a repeated run on the same file does not read it, produce the same result and write it", {"events": log, "error": repr(exc)[:200]}, "c18-open-sequence")
             continue
-        if not t[0][3]:
+        blind = not probe.ready      # the library does not produce its result through the json encoder: "complete by then" cannot be observed this way
+        if blind:
+            ck.count("probe-blind")
+        elif not t[0][3]:
             ck.violation("the output file was touched (opened for writing / replaced) before the result was fully serialized", {"events": log}, "c18-early-open")
             continue
         write_at = t[0][2]          # line-event number of the first event that can modify the target
@@ -129,7 +144,7 @@ def _run(ck: Check, probe) -> None:
             total_points += 1
             ck.oracle_checks += 1
             after = open(fn, "rb").read()
-            verdict = judge(log2, after, orig, exc is not None)
+            verdict = judge(log2, after, orig, exc is not None, blind)
             if verdict == "early" or verdict == "modified-unobserved":
                 ck.violation("a failure before the output phase left a modified (partially signed / truncated) file, or the output was touched before the result was complete",
                              {"fault": str(exc)[:200], "event": p, "of": write_at, "events": log2, "file_len_before": len(orig), "file_len_after": len(after), "document": proto.enc(doc)[:600]},
@@ -345,7 +360,8 @@ def _run(ck: Check, probe) -> None:
         if exc is not None or exc2 is not None or not t or not faults.reads(log) or open(mfn, "rb").read() != gsigned:
             ck.violation("GPG-path signing of a well-formed file failed or did not read and then write the file", {"error": repr(exc or exc2)[:200], "events": log}, "c18-gpg-baseline")
             continue
-        if not t[0][3]:
+        gblind = not probe.ready
+        if not gblind and not t[0][3]:
             ck.violation("GPG path: the output file was touched before the result was fully serialized", {"events": log}, "c18-gpg-early-open")
             continue
         write_at = t[0][2]
@@ -357,7 +373,7 @@ def _run(ck: Check, probe) -> None:
             ck.evaluations += 1
             ck.oracle_checks += 1
             after = open(mfn, "rb").read()
-            if judge(log2, after, orig, exc is not None) is not None or (exc is not None and not faults.touches(log2) and after != orig):
+            if judge(log2, after, orig, exc is not None, gblind) is not None or (exc is not None and not faults.touches(log2) and after != orig):
                 ck.violation("GPG path: a failure before the output phase left a modified file", {"fault": str(exc)[:200], "events": log2}, "c18-gpg-modified")
                 break
             ck.nontrivial_add(("gpg", mi, p))
@@ -417,7 +433,8 @@ def _run(ck: Check, probe) -> None:
                 ans = ck.driver.run([ln])[0]
                 parts = dict(p.split("=", 1) for p in ans.split(" ")[1:] if "=" in p)
                 iclass = "failed:" + (impl.classify(exc) if exc else "none")
-                if not (ans.split(" ")[0] == iclass and parts.get("file") == orig.hex() and parts.get("opens") == ("r" if faults.reads(log3) else "")):
+                # (which error class a failing request gets is not the property's business; that it fails, with the file read at most and untouched, is)
+                if not (ans.split(" ")[0].startswith("failed:") and iclass != "failed:none" and parts.get("file") == orig.hex() and "w" not in parts.get("opens", "")):
                     ck.mismatch_total += 1
                     ck.mismatch_kinds["gpg-step-machine:" + label] = 1
                     ck.mismatches.append({"corr": "corr:in-place-signing/open-sequence+file-bytes", "line": ln[:400], "impl": iclass, "model": ans[:200], "tag": "gpg-" + label, "meta": {}, "stdout_encoding": "utf-8"})
